@@ -58,7 +58,7 @@ def one(it):
         clean_alt(wt)
 
 
-res = json.load(open("/verif/refactors/last_run.json")) if RETRY else {}
+res = json.load(open("/verif/refactors/last_run.json")) if (RETRY or pat) and os.path.exists("/verif/refactors/last_run.json") else {}
 todo = [i for i in idx if pat in i["patch"] and (not RETRY or i["patch"] in ONLY)]
 with cf.ThreadPoolExecutor(max_workers=1 if RETRY else 4) as ex:
     for name, out in ex.map(one, todo):
